@@ -2955,7 +2955,7 @@ FROM (
 
         rule_name = rule.name or ""
         ec_sql = self._error_code_sql(rule.erCode)
-        el_sql = self._error_code_sql(rule.erLevel)
+        el_sql = self._error_level_sql(rule.erLevel)
         select_parts = [quote_name(c) for c in id_cols + measure_cols]
         viral_parts = [quote_name(comp.name) for comp in viral_comps or []]
         if output_mode == "invalid":
@@ -3281,10 +3281,13 @@ FROM (
         inner_sql = f"SELECT {', '.join(inner_cols)} FROM _pivot{inner_where_clause}"
 
         ec_sql = self._error_code_sql(rule.erCode)
-        el_sql = self._error_code_sql(rule.erLevel)
-        el_null = (
-            "CAST(NULL AS DOUBLE)" if self._is_numeric(rule.erLevel) else "CAST(NULL AS VARCHAR)"
-        )
+        el_sql = self._error_level_sql(rule.erLevel)
+        if rule.erLevel is None:
+            el_null = "NULL"
+        elif self._is_numeric(rule.erLevel):
+            el_null = "CAST(NULL AS DOUBLE)"
+        else:
+            el_null = "CAST(NULL AS VARCHAR)"
 
         q_rc = quote_name(rule_comp)
         q_m = quote_name(measure)
@@ -3635,6 +3638,14 @@ FROM (
     def _error_code_sql(self, value: Any) -> str:
         """Convert an errorcode value to a SQL literal."""
         return "CAST(NULL AS VARCHAR)" if value is None else self._to_sql_literal(value=value)
+
+    def _error_level_sql(self, value: Any) -> str:
+        """Convert an errorlevel value to a SQL literal.
+
+        A rule without errorlevel contributes an UNTYPED NULL: a VARCHAR null would turn the
+        errorlevel column of the whole ruleset (a UNION ALL over its rules) into text.
+        """
+        return "NULL" if value is None else self._to_sql_literal(value=value)
 
     def visit_Validation(self, node: AST.Validation) -> str:
         """Visit CHECK validation operator."""
